@@ -216,6 +216,12 @@ def item(draw, names, rich=True, keys=None, want_zid=None):
             key = names.next("bk")
             vs = [draw(st.sampled_from(PLAIN + ["12", "o", "x", "2024-01-02"])) for _ in range(draw(st.integers(1, 4)))]
             lines.append({"ind": {1: "  * ", 2: "    - ", 3: "      + "}[blevel], "bprop": [key, vs]})
+    if rich and zid and len(lines) > 1 and "words" in lines[0] and draw(st.integers(0, 11)) == 0:
+        # the headline is nothing but the prefix fields (ZID, dates); the text lives in the bullets
+        lines[0] = {"ind": "", "words": []}
+    if rich and len(lines) > 1 and lines[1]["ind"] in ("  * ", "  ") and draw(st.integers(0, 13)) == 0:
+        # an empty bullet right below the headline
+        lines.insert(1, {"ind": "  *", "words": []})
     if len(lines) > 1 and draw(st.integers(0, 5)) == 0:
         # a line (not the last one) that ends in a blank: part of the body, verbatim
         lines[draw(st.integers(0, len(lines) - 2))]["trail"] = draw(st.sampled_from([" ", "  "]))
